@@ -106,6 +106,16 @@ def generate(run_seed, tier):
         m0['mix'] = 0.0
     mcfg['cia_pairs'] = ['H2-H2', 'H2-He'][:c.randint(1, 2)]
     mcfg['new_path'] = c.random() < 0.3
+    if c.random() < 0.25:
+        # one molecule's table on its own wavenumber grid (same end points
+        # and length as the others', other spacing)
+        mols_ = [m['name'] for m in mcfg['molecules']
+                 if m['name'] not in ('H', 'e-')]
+        mcfg['opac']['own_grid'] = {c.choice(mols_[1:] or mols_): 'lin'}
+    if c.random() < 0.3:
+        # CIA tabulated over a narrower temperature range than the layers span
+        t0 = c.uniform(900, 1400)
+        mcfg['opac']['cia_T'] = [t0, t0 + c.uniform(100, 500)]
     mcfg['clouds_pressure'] = 10 ** c.uniform(2, 5.5)
     mcfg['flatmie'] = {'mix': 10 ** c.uniform(-30, -24),
                        'bottomP': c.choice([-1, 1e5]), 'topP': 10.0}
@@ -155,6 +165,14 @@ def generate(run_seed, tier):
                 ops.append([o.choice(['model', 'model_contrib',
                                       'model_full_contrib'])])
             ops.append(['set', mol, 10 ** o.uniform(-9, -3.5)])
+    if o.random() < 0.15 and len(ops) >= 2:
+        # a source added to the model AFTER it was built (the list is then not
+        # re-sorted): composition must not depend on where it sits
+        absent = [x for x in ('SimpleClouds', 'Rayleigh', 'CIA')
+                  if x not in contribs]
+        if absent:
+            ops.insert(o.randint(1, len(ops) - 1),
+                       ['late_add', o.choice(absent)])
     return {'config': {'model': mcfg, 'obs': S.gen_obs(c, mcfg)}, 'ops': ops}
 
 
@@ -214,6 +232,7 @@ def execute(case, keep_text=False):
         def __setitem__(self, i, v):
             pass
     invalid = _Inv()
+    late = [False]
     bigrams = set()
     prev = None
     has_twin = False
@@ -281,6 +300,17 @@ def execute(case, keep_text=False):
                 viol('history-dependence', what + ':grid', 'native grid differs '
                      'from a fresh model at the same parameters', step)
                 raise Stop()
+            if late[0]:
+                # the long-lived list is in another order than a freshly built
+                # one: equal up to the licensed saturation cut-off only
+                ok, msg = t_close(got[2], ref[2], ref[2])
+                if not ok or not np.allclose(got[1], ref[1], rtol=1e-4,
+                                             atol=0):
+                    viol('composition', 'R3:late-added-source',
+                         'a source added after build() changes the result '
+                         'beyond the saturation cut-off: %s' % msg, step)
+                    raise Stop()
+                return
             for idx, nm in ((1, 'spectrum'), (2, 'tau')):
                 if not np.allclose(got[idx], ref[idx], rtol=1e-13, atol=0):
                     viol('history-dependence', what + ':' + nm, '%s of the '
@@ -544,6 +574,24 @@ def execute(case, keep_text=False):
                         raise Stop()
                 if not collision:
                     evaluate(step, 'store_contributions', run, run, cmp)
+            elif k == 'late_add':
+                if late[0] or op[1] in cfg['contribs']:
+                    continue
+                cfg = dict(cfg)
+                cfg['contribs'] = list(cfg['contribs']) + [op[1]]
+                if op[1] == 'CIA':
+                    from taurex.cache import CIACache
+                    _, cias_ = R.opac_tables(cfg['opac'], [],
+                                             cfg.get('cia_pairs', []))
+                    for pr_ in cfg.get('cia_pairs', []):
+                        if pr_ not in CIACache().cia_dict:
+                            CIACache().add_cia(R.MemCIA(pr_, *cias_[pr_]))
+                model.add_contribution(R.make_contribution(op[1], cfg))
+                built_list = list(model.contribution_list)
+                names = [c_.name for c_ in built_list]
+                collision = len(set(names)) < len(names)
+                late[0] = True
+                out.bump('probes', 'source_added_after_build')
             elif k == 'set_interp':
                 from taurex.cache import OpacityCache
                 OpacityCache().set_interpolation(op[1])
@@ -585,6 +633,11 @@ def execute(case, keep_text=False):
                                 raise Stop()
                     ref = fresh(without=mol)
                     rr = ref.model()
+                    if not np.array_equal(res[0], rr[0]):
+                        # without this molecule the model lives on another
+                        # molecule's native grid: not comparable point by point
+                        out.bump('probes', 'absent_changes_native_grid')
+                        continue
                     ok, msg = t_close(res[2], rr[2], res[2])
                     out.bump('steps', 'R4_checked')
                     if not ok or not np.allclose(res[1], rr[1], rtol=1e-11,
